@@ -151,6 +151,34 @@ def run_workload(case, d, log, label_child=None):
         # the inherited handle stands on)
         last_parent = (case["seed"] * 13) % (len(lines) - 1)
         do_reads(obj, case, lines, "parent-before-fork-last", 1, case["seed"] + 5, log, first=last_parent)
+    def use_another_object(who):
+        """A second, unrelated file object of the same class is opened, read and closed: objects do not share anything."""
+        p2 = path + ".other"
+        c2 = dict(case, nlines=3, map_from_file=False)
+        o2 = open_object(c2, p2, ["other 0", "other 1", "other 2"])
+        o2.open()
+        try:
+            got = o2["k1"] if case["variant"] == "MapAccessFile" else o2[1]
+            got = getattr(got, "s", got)
+        except Exception as e:
+            if "injected" in str(e):
+                # a failpoint of this run fired here (first execution of the statement in this process): nothing to judge
+                log("reads_done", who=who + "-other-object", n=0, bad=[], recovered=1)
+                return
+            got = f"raised {type(e).__name__}: {e}"
+        finally:
+            try:
+                o2.close()
+            except Exception:
+                pass
+        ok = got in ("other 1", "other 1\n")
+        log("reads_done", who=who + "-other-object", n=1, bad=[] if ok else [["second object [1]", "'other 1'", repr(got)[:80]]], recovered=0)
+
+    if case.get("other_object"):
+        with open(path + ".other", "wb") as f:       # written once, before any fork
+            f.write(b"other 0\nother 1\nother 2\n")
+    if case.get("other_object") == "parent_before_fork":
+        use_another_object("parent")
     kids = []
     style = case.get("fork_style", "os.fork")
     K = case["children"]
@@ -225,6 +253,8 @@ def run_workload(case, d, log, label_child=None):
             if sub == 0:
                 child_main(i, 1)
                 os._exit(0)
+        if case.get("other_object") == "child_first":
+            use_another_object(f"{'child' if depth == 0 else 'grandchild'}{i}")
         if i % 2 == 0:
             continue_iteration(f"{'child' if depth == 0 else 'grandchild'}{i}")
         do_reads(obj, case, lines, f"{'child' if depth == 0 else 'grandchild'}{i}", nreads, case["seed"] * 101 + i * 7 + depth, log,
